@@ -30,6 +30,28 @@ CLAIMS = {
     "module set_const (writes derived Model fields) is not part of the claim.",
     "design_ref": "DESIGN.md 3 (C10)",
   },
+  "C16": {
+    "text": "(1) forward._next_time: NEFC/BROADPHASE/NARROWPHASE bit <=> demand counter > capacity, no bit is ever cleared; (2) the "
+    "nnz-overflow kernel of make_constraint: NJMAX_NNZ bit <=> efc_nnz demand > njmax_nnz, launched last, on the allocator all sparse "
+    "builders use, zeroed first; (3) island._compact_dofs: NVMAX bit <=> awake-DOF count (ghost prefix sum, loop invariant) > nvmax; "
+    "(4) CAPACITY schema over all 60+ kernels with a capacity parameter: allocator increments do not depend on their own capacity "
+    "or returned slots (counters count demand), and relationally: if every allocation fitted, each store has the same guard, index and "
+    "value as with any larger capacity (the 'no bit => same result as ample capacity' clause). Found and repaired: NJMAX_NNZ overflow "
+    "was never raised; connect/weld rows that fit njmax exactly were dropped silently.",
+    "note": _BASE + "T4 for the demand counters; counters zeroed each step (C12). CCD/EPA/hfield/flex work buffers are not covered. "
+    "Row allocations are assumed to request >= 1 row (condim in {1,3,4,6}).",
+    "design_ref": "DESIGN.md 3 (C16), 9.1",
+  },
+  "C39": {
+    "text": "support.contact_force (host function + kernel + the wp.funcs it inlines, bound through the launch site) is proved equal, "
+    "component by component and exactly over the reals, to the documented mj_contactForce/mju_decodePyramid spec for both cones, "
+    "condim 1/3/4/6, with and without rotation to the world frame, for a symbolic request list, contact, world and row addresses; "
+    "stale ids write nothing, inactive contacts report zero, Data is not modified.",
+    "note": _BASE + "Spec taken from MuJoCo's documentation, not its C code. The contact dimension is fixed per run (all contacts "
+    "condim K); the kernel reads dim only at the requested slot (C09 SLOT), so mixed dimensions do not matter. Contacts whose rows "
+    "overflowed njmax are outside the claim.",
+    "design_ref": "DESIGN.md 3 (C39)",
+  },
   "C25": {
     "text": "Transition contracts on the real termination kernels (_solve_done, _solve_cg_finalize; ctx.done aliased for in/out as at "
     "the launch site): per world niter increments by one and never exceeds the limit, the invariant 'not done => niter < iterations' is "
